@@ -287,3 +287,20 @@ PROPS["C14"] = {
     "quick": [plain("exh2", "^TestExhaustiveGraphs$", shards=1, env={"VERIF_C14_LOCS": 2}), rapid("once", "^TestPropOnce$", 800, shards=4)],
     "thorough": [plain("exh3", "^TestExhaustiveGraphs$", shards=10, env={"VERIF_C14_LOCS": 3}), rapid("once", "^TestPropOnce$", 12000, shards=6)],
 }
+
+PROPS["C17"] = {
+    "pkg": "c17",
+    "level": "exploration",
+    "rule": ("rapid draws 1-2 registry packages offering 1-8 distinct versions from a pool with gaps, pre-releases (alpha/beta/rc), two-digit "
+             "components and build-metadata twins, in any listing order, each with its own real source and optional deprecation note, and 1-4 "
+             "requests in one build against them (allowed sets: all, released, exact, ranges, pessimistic, exclusions, disjoint/empty ones; "
+             "AddFinalRegistrySource with offered and unoffered versions; sub-paths) to exercise cache reuse. Oracle: brute-force maximum "
+             "(own semver precedence) over offered-and-allowed versions: each request's newest allowed version is in the bundle with exactly "
+             "the registry's source address and deprecation note for that version and resolves to the same path as that address; the bundle "
+             "and the registry's source-address log contain nothing but such maxima; no candidate => error diagnostic, every later call and "
+             "Close panic (no bundle). Non-trivial = >=3 offered versions not listed in ascending order with a constraint excluding the "
+             "overall newest, or several requests in one build; distinct by case hash."),
+    "assumptions": ["set membership (allowed.Has) is taken from go-versions", "among build-metadata twins any maximal one is accepted as 'the' selection"],
+    "quick": [rapid("select", "^TestPropSelect$", 1500, shards=4)],
+    "thorough": [rapid("select", "^TestPropSelect$", 25000, shards=12)],
+}
